@@ -12,7 +12,7 @@ META = {
     'trusted_base': ['CBMC 6.11 (C / C++ front ends, dfcc loop-contract instrumentation, SAT back end)', 'RVC executor + z3 (Int) for ParseBlock / operator<< / CreateIndexString',
                      'string splitting (Tokenizer, boost), std::stoi, std::to_string, std::set (sorted, duplicate-free) as assumed contracts'],
     'assumptions': ['RangeParser values within the std::stoi range (|v| <= 2^31) so that begin*stride cannot overflow a 64-bit Index'],
-    'not_decided': ['Tokenizer / boost string splitting', 'BeadList::Generate (a loop around wildcmp on std::strings; its selection predicate is the wildcmp contract)',
+    'not_decided': ['Tokenizer / boost string splitting', 'BeadList beyond two beads (the loop treats beads alike); std::string to const char* conversion in front of wildcmp',
                     'IndexParser::CreateIndexVector (lexical_cast / try-catch string parsing)'],
 }
 SIG_WILD = r'int\s+wildcmp\s*\(\s*const\s+char\s*\*\s*wild\s*,\s*const\s+char\s*\*\s*string\s*\)'
@@ -395,9 +395,86 @@ def collect(obs):
                 META['functions'].append(f)
 
 
+def job_beadlist(seed, n=2):
+    """BeadList::Generate / GenerateInSphericalSubvolume: a bead is selected exactly when wildcmp(pattern, its type) holds - its name for a "name:" selection, the
+    pattern being the text after the prefix - (and, for the sub-volume, its minimum-image distance from the reference point is <= the radius); selected beads appear
+    once each in topology order and the return value is their number.  wildcmp enters as an arbitrary predicate (every truth table over the pattern/string pairs
+    the code could form is enumerated), so a call with the wrong pattern or the wrong string is seen."""
+    import itertools
+    rvc.reset()
+    rel = 'csg/src/libcsg/beadlist.cc'
+    fns = rvc.functions(rvc.ast(rel, 'BeadList::Generate'))
+    obs = []
+    for fname in ('Generate', 'GenerateInSphericalSubvolume'):
+        if fname not in fns:
+            raise core.Undecided('front end: BeadList::%s not found' % fname)
+        fn = fns[fname][0]
+        F = 'BeadList::' + fname
+        sub = fname != 'Generate'
+        mf = [{'name': F, 'file': rel, 'ast_nodes': rvc.node_count(fn), 'route': 'RVC'}]
+        for select, byname, pat in (('X*', False, 'X*'), ('name:X*', True, 'X*'), ('name:', True, ''), ('nam', False, 'nam'), ('name', False, 'name')):
+            strings = ['T%d' % i for i in range(n)] + ['N%d' % i for i in range(n)]
+            pats = sorted(set([select, pat]))
+            keys = [(p_, s_) for p_ in pats for s_ in strings]
+            dists = list(itertools.product((1, 2, 3), repeat=n)) if sub else [None]
+            bad, runs = None, 0
+            for bits in itertools.product((False, True), repeat=len(keys)):
+                W = dict(zip(keys, bits))
+                for dd in dists:
+                    runs += 1
+                    beads = [{'__class__': 'Bead', 'id': i, 'type': 'T%d' % i, 'name': 'N%d' % i, 'pos': Mx.vec([i, 0, 0])} for i in range(n)]
+                    calls = []
+                    def wild(p_, s_):
+                        calls.append((p_, s_))
+                        if (p_, s_) not in W:
+                            raise rvc.Unsupported('wildcmp(%r, %r): arguments outside the enumerated pattern/string pairs' % (p_, s_))
+                        return W[(p_, s_)]
+                    class Conn:
+                        def __init__(s, d): s.d = d
+                        def norm(s): return D(s.d)
+                    top = {'__class__': 'Topology'}
+                    cb = {'wildcmp': wild, 'Beads': lambda t: beads, 'getType': lambda b: b['type'], 'getName': lambda b: b['name'], 'getPos': lambda b: b['pos'],
+                          'BCShortestConnection': lambda t, a, b: Conn(dd[[x['pos'] for x in beads].index(b)] if dd else 0), 'size': lambda o: len(o['beads_']) if isinstance(o, dict) else len(o)}
+                    this = {'__class__': 'BeadList', 'beads_': [], 'topology_': None}
+                    env = {'top': top, 'select': select}
+                    if sub:
+                        env.update({'ref': Mx.vec([0, 0, 0]), 'radius': D(2)})
+                    ex = Exec(env, cb, {}, this)
+                    ret = None
+                    try:
+                        ex.stmt(rvc.body_of(fn))
+                    except Ret as r:
+                        ret = r.v
+                    want = [b for i, b in enumerate(beads) if W[(pat, b['name'] if byname else b['type'])] and (not sub or dd[i] <= 2)]
+                    got = this['beads_']
+                    if [b['id'] for b in got] != [b['id'] for b in want] or rvc._i(ret) != len(want):
+                        bad = {'select': select, 'wildcmp_true_for': [k for k in keys if W[k]], 'distances': dd, 'radius': 2, 'selected_ids': [b['id'] for b in got], 'expected_ids': [b['id'] for b in want], 'returned': str(ret), 'wildcmp_calls': calls[:6]}
+                        break
+                if bad:
+                    break
+            tag = '%s/%s' % (fname, select.replace(':', '_').replace('*', 'S') or 'EMPTY')
+            o = Ob('C18.beadlist/' + tag, F, 'bead selected iff wildcmp(%r, bead %s)%s; topology order, once each; returns the count' % (pat, 'name' if byname else 'type', ' and its minimum-image distance from ref is <= radius' if sub else ''),
+                   'RVC', 'symbolic execution, wildcmp as an arbitrary predicate (%d truth tables%s)' % (2 ** len(keys), ' x %d distance patterns' % len(dists) if sub else ''), core.REFUTED if bad else core.BOUNDED, 0,
+                   'runs: %d' % runs, witness=bad, bound='%d beads' % n)
+            o['functions'] = mf
+            obs.append(o)
+    badobs = [o for o in obs if o['status'] == core.REFUTED and o['id'].startswith('C18.beadlist/')]
+    if badobs:
+        try:
+            exe = native.build('C18.beadlist', open(os.path.join(CDIR, 'replay_beadlist.cc')).read(), [], sanitize=False, opt='-O1', libs=native.libs())
+            rc, out, err = native.execute(exe, [], timeout=60)
+            for o in badobs:
+                o['replay'] = {'reproduced': rc == 1, 'cmd': exe, 'rc': rc, 'stdout': (out or '')[-700:], 'stderr': (err or '')[-300:], 'input_from': 'fixed topology and selections in the domain of the contract',
+                               'against': 'real BeadList::Generate / GenerateInSphericalSubvolume (libvotca_csg from the working tree) against a brute-force selection with the real wildcmp'}
+        except core.Undecided as e:
+            for o in badobs:
+                o['replay'] = {'reproduced': False, 'error': str(e)}
+    return obs
+
+
 def run(tier, seed, only=None):
     Ns = (3, 4) if tier == 'quick' else (4, 5, 6)
-    jobs = [(job_wild_spec, (n,)) for n in Ns] + [(job_wild_safety, ()), (job_range_step, ()), (job_parseblock, (seed,))] + [(job_indexstring, (seed, n)) for n in ((1, 2, 3, 4) if tier == 'quick' else (1, 2, 3, 4, 5, 6))]
+    jobs = [(job_wild_spec, (n,)) for n in Ns] + [(job_wild_safety, ()), (job_range_step, ()), (job_parseblock, (seed,)), (job_beadlist, (seed,))] + [(job_indexstring, (seed, n)) for n in ((1, 2, 3, 4) if tier == 'quick' else (1, 2, 3, 4, 5, 6))]
     if only:
         jobs = [j for j in jobs if re.search(only, j[0].__name__ + str(j[1]))]
     obs = core.pmap(jobs)
